@@ -4,7 +4,7 @@
 set -u
 cd /verif
 names=("$@")
-if [ ${#names[@]} -eq 0 ]; then names=($(ls seeded)); fi
+if [ ${#names[@]} -eq 0 ]; then names=($(cd seeded && ls -d */ | tr -d /)); fi
 for n in "${names[@]}"; do
   d=seeded/$n
   pid=$(python3 -c "import json;print(json.load(open('$d/meta.json'))['breaks_property'])")
